@@ -34,7 +34,7 @@ Proof.
   destruct (wr_frames_unknown_length && (r_cl r =? -1)%Z && negb (is_header_only (q_method q) (r_code r)) && negb (is_connect_ok q r));
     [|cbv zeta; repeat split].
   destruct (negb (proto_at_least_11 (q_major q) (q_minor q))); [cbv zeta; repeat split|].
-  destruct (negb (r_chunked r) && negb (r_close r)); [|cbv zeta; repeat split].
+  destruct (negb (r_chunked r) && (wr_reframes_close_delimited || negb (r_close r))); [|cbv zeta; repeat split].
   destruct (proto_at_least_11 (r_major r) (r_minor r)); cbv zeta; repeat split.
 Qed.
 
@@ -188,10 +188,7 @@ Section Response.
           assert (Hd : go_delimited true (q_method q) r' = true)
             by (apply delimited_chunked; [exact Hhead | rewrite H1, H2; exact Ha | rewrite H11; cbn [set_close r_chunked]; exact Ec]).
           split; [intros _; exact Hd | left; exact Hd].
-        * destruct (final_close closing q r) eqn:Ef; cbn [negb] in H10, H11.
-          -- cbn [set_close r_close r_chunked] in H10, H11.
-             split; [intro Hc; rewrite H10 in Hc; discriminate |].
-             right. apply until_close_unknown; [exact Hhead | rewrite H11; exact Ec | exact Hcl'].
+        * destruct (wr_reframes_close_delimited || negb (final_close closing q r)) eqn:Ef.
           -- destruct (proto_at_least_11 (r_major r) (r_minor r)) eqn:Ea;
                cbn [set_close set_chunked r_close r_chunked] in H10, H11.
              ++ assert (Hd : go_delimited true (q_method q) r' = true)
@@ -199,6 +196,10 @@ Section Response.
                 split; [intros _; exact Hd | left; exact Hd].
              ++ split; [intro Hc; rewrite H10 in Hc; discriminate |].
                 right. apply until_close_unknown; [exact Hhead | rewrite H11; exact Ec | exact Hcl'].
+          -- apply orb_false_iff in Ef as [_ Ef]. apply negb_false_iff in Ef.
+             cbn [set_close r_close r_chunked] in H10, H11.
+             split; [intro Hc; rewrite H10, Ef in Hc; discriminate |].
+             right. apply until_close_unknown; [exact Hhead | rewrite H11; exact Ec | exact Hcl'].
       + cbn [set_close set_chunked r_close r_chunked] in H10, H11.
         split; [intro Hc; rewrite H10 in Hc; discriminate |].
         right. apply until_close_unknown; [exact Hhead | exact H11 | exact Hcl'].
